@@ -238,6 +238,12 @@ theorem waitAttempt_inv (s : St) (t : Nat) (a : TS) (p : Pred) (hi : Inv s)
       cases h
       exact ⟨g2, fun _ _ => hev⟩
 
+theorem step_bodyIn (s s' : St) (t : Nat) (hs : step s (.bodyIn t) = some s') : s' = s := by
+  simp only [step] at hs; split at hs <;> simp at hs; exact hs.symm
+
+theorem step_bodyOut (s s' : St) (t : Nat) (hs : step s (.bodyOut t) = some s') : s' = s := by
+  simp only [step] at hs; split at hs <;> simp at hs; exact hs.symm
+
 theorem step_inv (s : St) (e : Ev) (s' : St) (hi : Inv s) (hs : step s e = some s') : Inv s' := by
   cases e with
   | invHold t k p =>
@@ -272,6 +278,8 @@ theorem step_inv (s : St) (e : Ev) (s' : St) (hi : Inv s) (hs : step s e = some 
     refine inv_move s t _ _ s.cx hi h ?_ ?_
     · intro ch hch; cases rt <;> simpa [TS.handles] using hch
     · intro q c h; cases rt <;> simp at h
+  | bodyIn t => rw [step_bodyIn s s' t hs]; exact hi
+  | bodyOut t => rw [step_bodyOut s s' t hs]; exact hi
   | invWait t p =>
     simp only [step] at hs; split at hs <;> try simp at hs
     split at hs <;> simp at hs <;> subst hs <;>
@@ -386,6 +394,8 @@ theorem step_closed_iff (s : St) (e : Ev) (s' : St) (hi : Inv s) (hs : step s e 
     all_goals (obtain ⟨_, rfl⟩ := hs; simp [bcasts])
   | cbout t =>
     simp only [step] at hs; split at hs <;> simp at hs; subst hs; simp [bcasts]
+  | bodyIn t => rw [step_bodyIn s s' t hs]; simp [bcasts]
+  | bodyOut t => rw [step_bodyOut s s' t hs]; simp [bcasts]
   | invWait t p =>
     simp only [step] at hs; split at hs <;> try simp at hs
     split at hs <;> simp at hs <;> subst hs <;> simp [bcasts]
@@ -499,6 +509,8 @@ theorem step_wRet (s s' : St) (e : Ev) (t : Nat) (r : WRes) (hs : step s e = som
     simp only [step] at hs; split at hs <;> simp at hs; subst hs
     obtain ⟨_, hb⟩ := set_hit _ _ _ _ _ h1 h0
     split at hb <;> cases hb
+  | bodyIn u => rw [step_bodyIn s s' u hs] at h1; exact absurd h1 h0
+  | bodyOut u => rw [step_bodyOut s s' u hs] at h1; exact absurd h1 h0
   | invWait u p =>
     simp only [step] at hs; split at hs <;> try simp at hs
     rename_i hu
@@ -576,6 +588,8 @@ theorem step_cx (s s' : St) (e : Ev) (t : Nat) (hs : step s e = some s')
     simp only [step] at hs; split at hs <;> try simp at hs
     all_goals (obtain ⟨_, rfl⟩ := hs; simp_all)
   | cbout u => simp only [step] at hs; split at hs <;> simp at hs; subst hs; simp_all
+  | bodyIn u => rw [step_bodyIn s s' u hs] at h1; simp_all
+  | bodyOut u => rw [step_bodyOut s s' u hs] at h1; simp_all
   | invWait u p =>
     simp only [step] at hs; split at hs <;> try simp at hs
     split at hs <;> simp at hs <;> subst hs <;> simp_all
@@ -701,6 +715,8 @@ theorem step_tidy (s : St) (e : Ev) (s' : St) (hj : Tidy s) (hs : step s e = som
     simp only [step] at hs; split at hs <;> simp at hs; subst hs
     rename_i hs' rt h
     exact tidy_move s t _ _ s.x s.bc s.cx hj h (by intro q h; cases rt <;> cases h)
+  | bodyIn t => rw [step_bodyIn s s' t hs]; exact hj
+  | bodyOut t => rw [step_bodyOut s s' t hs]; exact hj
   | invWait t p =>
     simp only [step] at hs; split at hs <;> try simp at hs
     split at hs <;> simp at hs <;> subst hs <;>
